@@ -162,7 +162,7 @@ pub(super) fn nfc_final_step_into_scalar<O: AssignOp>(base2k: usize, lsh: usize,
 /// Must be called within an `#[target_feature(enable = "avx2")]` context.
 #[inline(always)]
 unsafe fn sra_epi64(v: __m256i, imm: u32) -> __m256i {
-    debug_assert!(imm <= 64, "sra_epi64: imm={imm} out of range [0, 64]");
+    assert!(imm <= 64, "sra_epi64: imm={imm} out of range [0, 64]");
     unsafe {
         // Broadcast the sign bit of each i64 lane into all 32-bit slots.
         // shuffle_epi32(v, 0xF5) copies the high 32-bit half of each 64-bit lane to both halves.
@@ -335,6 +335,8 @@ unsafe fn nfc_final_chunk(s: &NfcShifts, lo_a: __m256i, lo_c: __m256i) -> __m256
 /// Requires AVX2.  `res`, `a`, `carry` must each have at least `n` elements.
 #[target_feature(enable = "avx2")]
 pub(super) unsafe fn nfc_middle_step_avx2(base2k: u32, lsh: u32, n: usize, res: &mut [i64], a: &[i128], carry: &mut [i128]) {
+    // the 4-lane loop below walks `n` elements of every operand through raw pointers
+    assert!(res.len() >= n && a.len() >= n && carry.len() >= n, "nfc_middle_step_avx2: operand shorter than n = {n}");
     unsafe {
         let s = NfcShifts::new(base2k, lsh);
         let a_ptr = a.as_ptr() as *const __m256i;
@@ -382,6 +384,8 @@ pub(super) unsafe fn nfc_middle_step_into_avx2<O: AssignOp>(
     a: &[i128],
     carry: &mut [i128],
 ) {
+    // the 4-lane loop below walks `n` elements of every operand through raw pointers
+    assert!(res.len() >= n && a.len() >= n && carry.len() >= n, "nfc_middle_step_into_avx2: operand shorter than n = {n}");
     unsafe {
         let s = NfcShifts::new(base2k, lsh);
         let a_ptr = a.as_ptr() as *const __m256i;
@@ -435,6 +439,8 @@ pub(super) unsafe fn nfc_middle_step_into_avx2<O: AssignOp>(
 /// Requires AVX2.
 #[target_feature(enable = "avx2")]
 pub(super) unsafe fn nfc_middle_step_assign_avx2(base2k: u32, lsh: u32, n: usize, res: &mut [i64], carry: &mut [i128]) {
+    // the 4-lane loop below walks `n` elements of every operand through raw pointers
+    assert!(res.len() >= n && carry.len() >= n, "nfc_middle_step_assign_avx2: operand shorter than n = {n}");
     unsafe {
         let s = NfcShifts::new(base2k, lsh);
         let c_ptr = carry.as_mut_ptr() as *mut __m256i;
@@ -474,6 +480,8 @@ pub(super) unsafe fn nfc_middle_step_assign_avx2(base2k: u32, lsh: u32, n: usize
 /// Requires AVX2.
 #[target_feature(enable = "avx2")]
 pub(super) unsafe fn nfc_final_step_assign_avx2(base2k: u32, lsh: u32, n: usize, res: &mut [i64], carry: &mut [i128]) {
+    // the 4-lane loop below walks `n` elements of every operand through raw pointers
+    assert!(res.len() >= n && carry.len() >= n, "nfc_final_step_assign_avx2: operand shorter than n = {n}");
     unsafe {
         let s = NfcShifts::new(base2k, lsh);
         let c_ptr = carry.as_ptr() as *const __m256i;
@@ -496,6 +504,8 @@ pub(super) unsafe fn nfc_final_step_assign_avx2(base2k: u32, lsh: u32, n: usize,
 
 #[target_feature(enable = "avx2")]
 pub(super) unsafe fn nfc_final_step_into_avx2<O: AssignOp>(base2k: u32, lsh: u32, n: usize, res: &mut [i64], carry: &mut [i128]) {
+    // the 4-lane loop below walks `n` elements of every operand through raw pointers
+    assert!(res.len() >= n && carry.len() >= n, "nfc_final_step_into_avx2: operand shorter than n = {n}");
     unsafe {
         let s = NfcShifts::new(base2k, lsh);
         let c_ptr = carry.as_ptr() as *const __m256i;
@@ -637,6 +647,7 @@ unsafe fn neg4_i128(lo_a: __m256i, hi_a: __m256i) -> (__m256i, __m256i) {
 /// Requires AVX2.  All slices must have at least `n` elements.
 #[target_feature(enable = "avx2")]
 pub(super) unsafe fn vi128_add_avx2(n: usize, res: &mut [i128], a: &[i128], b: &[i128]) {
+    assert!(res.len() >= n && a.len() >= n && b.len() >= n, "vi128_add_avx2: operand shorter than n = {n}");
     unsafe {
         let a_ptr = a.as_ptr() as *const __m256i;
         let b_ptr = b.as_ptr() as *const __m256i;
@@ -663,6 +674,7 @@ pub(super) unsafe fn vi128_add_avx2(n: usize, res: &mut [i128], a: &[i128], b: &
 /// Requires AVX2.  All slices must have at least `n` elements.
 #[target_feature(enable = "avx2")]
 pub(super) unsafe fn vi128_add_assign_avx2(n: usize, res: &mut [i128], a: &[i128]) {
+    assert!(res.len() >= n && a.len() >= n, "vi128_add_assign_avx2: operand shorter than n = {n}");
     unsafe {
         let a_ptr = a.as_ptr() as *const __m256i;
         let r_ptr = res.as_mut_ptr() as *mut __m256i;
@@ -687,6 +699,7 @@ pub(super) unsafe fn vi128_add_assign_avx2(n: usize, res: &mut [i128], a: &[i128
 /// Requires AVX2.  All slices must have at least `n` elements.
 #[target_feature(enable = "avx2")]
 pub(super) unsafe fn vi128_add_small_avx2(n: usize, res: &mut [i128], a: &[i128], b: &[i64]) {
+    assert!(res.len() >= n && a.len() >= n && b.len() >= n, "vi128_add_small_avx2: operand shorter than n = {n}");
     unsafe {
         let a_ptr = a.as_ptr() as *const __m256i;
         let b_ptr = b.as_ptr() as *const __m256i;
@@ -713,6 +726,7 @@ pub(super) unsafe fn vi128_add_small_avx2(n: usize, res: &mut [i128], a: &[i128]
 /// Requires AVX2.  All slices must have at least `n` elements.
 #[target_feature(enable = "avx2")]
 pub(super) unsafe fn vi128_add_small_assign_avx2(n: usize, res: &mut [i128], a: &[i64]) {
+    assert!(res.len() >= n && a.len() >= n, "vi128_add_small_assign_avx2: operand shorter than n = {n}");
     unsafe {
         let a_ptr = a.as_ptr() as *const __m256i;
         let r_ptr = res.as_mut_ptr() as *mut __m256i;
@@ -737,6 +751,7 @@ pub(super) unsafe fn vi128_add_small_assign_avx2(n: usize, res: &mut [i128], a: 
 /// Requires AVX2.  All slices must have at least `n` elements.
 #[target_feature(enable = "avx2")]
 pub(super) unsafe fn vi128_sub_avx2(n: usize, res: &mut [i128], a: &[i128], b: &[i128]) {
+    assert!(res.len() >= n && a.len() >= n && b.len() >= n, "vi128_sub_avx2: operand shorter than n = {n}");
     unsafe {
         let a_ptr = a.as_ptr() as *const __m256i;
         let b_ptr = b.as_ptr() as *const __m256i;
@@ -763,6 +778,7 @@ pub(super) unsafe fn vi128_sub_avx2(n: usize, res: &mut [i128], a: &[i128], b: &
 /// Requires AVX2.  All slices must have at least `n` elements.
 #[target_feature(enable = "avx2")]
 pub(super) unsafe fn vi128_sub_assign_avx2(n: usize, res: &mut [i128], a: &[i128]) {
+    assert!(res.len() >= n && a.len() >= n, "vi128_sub_assign_avx2: operand shorter than n = {n}");
     unsafe {
         let a_ptr = a.as_ptr() as *const __m256i;
         let r_ptr = res.as_mut_ptr() as *mut __m256i;
@@ -787,6 +803,7 @@ pub(super) unsafe fn vi128_sub_assign_avx2(n: usize, res: &mut [i128], a: &[i128
 /// Requires AVX2.  All slices must have at least `n` elements.
 #[target_feature(enable = "avx2")]
 pub(super) unsafe fn vi128_sub_negate_assign_avx2(n: usize, res: &mut [i128], a: &[i128]) {
+    assert!(res.len() >= n && a.len() >= n, "vi128_sub_negate_assign_avx2: operand shorter than n = {n}");
     unsafe {
         let a_ptr = a.as_ptr() as *const __m256i;
         let r_ptr = res.as_mut_ptr() as *mut __m256i;
@@ -811,6 +828,7 @@ pub(super) unsafe fn vi128_sub_negate_assign_avx2(n: usize, res: &mut [i128], a:
 /// Requires AVX2.  All slices must have at least `n` elements.
 #[target_feature(enable = "avx2")]
 pub(super) unsafe fn vi128_sub_small_a_avx2(n: usize, res: &mut [i128], a: &[i64], b: &[i128]) {
+    assert!(res.len() >= n && a.len() >= n && b.len() >= n, "vi128_sub_small_a_avx2: operand shorter than n = {n}");
     unsafe {
         let a_ptr = a.as_ptr() as *const __m256i;
         let b_ptr = b.as_ptr() as *const __m256i;
@@ -837,6 +855,7 @@ pub(super) unsafe fn vi128_sub_small_a_avx2(n: usize, res: &mut [i128], a: &[i64
 /// Requires AVX2.  All slices must have at least `n` elements.
 #[target_feature(enable = "avx2")]
 pub(super) unsafe fn vi128_sub_small_b_avx2(n: usize, res: &mut [i128], a: &[i128], b: &[i64]) {
+    assert!(res.len() >= n && a.len() >= n && b.len() >= n, "vi128_sub_small_b_avx2: operand shorter than n = {n}");
     unsafe {
         let a_ptr = a.as_ptr() as *const __m256i;
         let b_ptr = b.as_ptr() as *const __m256i;
@@ -863,6 +882,7 @@ pub(super) unsafe fn vi128_sub_small_b_avx2(n: usize, res: &mut [i128], a: &[i12
 /// Requires AVX2.  All slices must have at least `n` elements.
 #[target_feature(enable = "avx2")]
 pub(super) unsafe fn vi128_sub_small_assign_avx2(n: usize, res: &mut [i128], a: &[i64]) {
+    assert!(res.len() >= n && a.len() >= n, "vi128_sub_small_assign_avx2: operand shorter than n = {n}");
     unsafe {
         let a_ptr = a.as_ptr() as *const __m256i;
         let r_ptr = res.as_mut_ptr() as *mut __m256i;
@@ -887,6 +907,7 @@ pub(super) unsafe fn vi128_sub_small_assign_avx2(n: usize, res: &mut [i128], a: 
 /// Requires AVX2.  All slices must have at least `n` elements.
 #[target_feature(enable = "avx2")]
 pub(super) unsafe fn vi128_sub_small_negate_assign_avx2(n: usize, res: &mut [i128], a: &[i64]) {
+    assert!(res.len() >= n && a.len() >= n, "vi128_sub_small_negate_assign_avx2: operand shorter than n = {n}");
     unsafe {
         let a_ptr = a.as_ptr() as *const __m256i;
         let r_ptr = res.as_mut_ptr() as *mut __m256i;
@@ -911,6 +932,7 @@ pub(super) unsafe fn vi128_sub_small_negate_assign_avx2(n: usize, res: &mut [i12
 /// Requires AVX2.  All slices must have at least `n` elements.
 #[target_feature(enable = "avx2")]
 pub(super) unsafe fn vi128_negate_avx2(n: usize, res: &mut [i128], a: &[i128]) {
+    assert!(res.len() >= n && a.len() >= n, "vi128_negate_avx2: operand shorter than n = {n}");
     unsafe {
         let a_ptr = a.as_ptr() as *const __m256i;
         let r_ptr = res.as_mut_ptr() as *mut __m256i;
@@ -934,6 +956,7 @@ pub(super) unsafe fn vi128_negate_avx2(n: usize, res: &mut [i128], a: &[i128]) {
 /// Requires AVX2.  Slice must have at least `n` elements.
 #[target_feature(enable = "avx2")]
 pub(super) unsafe fn vi128_negate_assign_avx2(n: usize, res: &mut [i128]) {
+    assert!(res.len() >= n, "vi128_negate_assign_avx2: operand shorter than n = {n}");
     unsafe {
         let r_ptr = res.as_mut_ptr() as *mut __m256i;
         let chunks = n / 4;
@@ -953,6 +976,7 @@ pub(super) unsafe fn vi128_negate_assign_avx2(n: usize, res: &mut [i128]) {
 /// Requires AVX2.  All slices must have at least `n` elements.
 #[target_feature(enable = "avx2")]
 pub(super) unsafe fn vi128_from_small_avx2(n: usize, res: &mut [i128], a: &[i64]) {
+    assert!(res.len() >= n && a.len() >= n, "vi128_from_small_avx2: operand shorter than n = {n}");
     unsafe {
         let a_ptr = a.as_ptr() as *const __m256i;
         let r_ptr = res.as_mut_ptr() as *mut __m256i;
@@ -974,6 +998,7 @@ pub(super) unsafe fn vi128_from_small_avx2(n: usize, res: &mut [i128], a: &[i64]
 /// Requires AVX2.  All slices must have at least `n` elements.
 #[target_feature(enable = "avx2")]
 pub(super) unsafe fn vi128_neg_from_small_avx2(n: usize, res: &mut [i128], a: &[i64]) {
+    assert!(res.len() >= n && a.len() >= n, "vi128_neg_from_small_avx2: operand shorter than n = {n}");
     unsafe {
         let a_ptr = a.as_ptr() as *const __m256i;
         let r_ptr = res.as_mut_ptr() as *mut __m256i;
